@@ -18,7 +18,7 @@ func (m *Manager) VerifTable() []VerifLock {
 	for _, shard := range m.shards {
 		shard.RLock()
 		for name, l := range shard.locks {
-			out = append(out, VerifLock{Name: name, Size: l.Size(), Keys: l.Keys(), LastAccessed: l.lastAccessed.UnixNano()})
+			out = append(out, VerifLock{Name: name, Size: l.Size(), Keys: l.Keys(), LastAccessed: l.lastAccessed.Load().UnixNano()})
 		}
 		shard.RUnlock()
 	}
